@@ -46,7 +46,8 @@ def outcome(R):
     for nd in sim.transitive_nodes:
         if R.kind(nd) in ("int", "sched"):
             stats.append((nd.id_number, tuple((s.id_number, s.busy_time, s.total_time) for s in nd.servers),
-                          tuple(nd.all_servers_busy), tuple(nd.all_servers_total), nd.server_utilisation))
+                          tuple(getattr(nd, "all_servers_busy", ("missing",))), tuple(getattr(nd, "all_servers_total", ("missing",))),
+                          getattr(nd, "server_utilisation", "missing")))
     return recs, sim.current_time, stats
 
 
